@@ -7,6 +7,8 @@
 //! Tables are lists of [version, magic, x]; x is the part of the version data that is not the magic:
 //!   n2n: diffusion mode = x & 1, peer_sharing = Some(x >> 1), query = Some(false)
 //!   n2c: x mod 3: 0 -> no query flag, 1 -> Some(false), 2 -> Some(true)
+//! The magic column holds an abstract id k (1..) that stands for MAGICS[k - 1]: wide u64 magics, neighbours differing
+//! only above bit 31.
 //! Event: {"ev":"hs","impl":..,"c":[..],"s":[..],"replies":[..],"ret":..}
 use futures::StreamExt;
 use pallas_network::miniprotocols::handshake as h1;
@@ -29,14 +31,22 @@ fn rows_json(t: &[Row]) -> Value {
     json!(t.iter().map(|r| r.to_vec()).collect::<Vec<_>>())
 }
 
+/// Network magics are logged as small abstract ids (TLC integers are 32-bit); id k stands for MAGICS[k - 1].
+/// Neighbouring ids differ only above bit 31 (or only in bit 63), so that a codec which narrows the u64 magic makes
+/// two different magics collide.
+pub const MAGICS: [u64; 10] = [764824073, 764824073 + (1 << 32), 1097911063, 1097911063 + (1 << 63), 1, 1 + (1 << 32), 2, 4, 1 << 32, u64::MAX];
+fn magic(m: i64) -> u64 {
+    MAGICS[(m as usize - 1) % MAGICS.len()]
+}
+
 fn n2n_1(m: i64, x: i64) -> h1::n2n::VersionData {
-    h1::n2n::VersionData::new(m as u64, x & 1 == 1, Some((x >> 1) as u8), Some(false))
+    h1::n2n::VersionData::new(magic(m), x & 1 == 1, Some((x >> 1) as u8), Some(false))
 }
 fn n2c_1(m: i64, x: i64) -> h1::n2c::VersionData {
-    h1::n2c::VersionData::new(m as u64, match x % 3 { 0 => None, 1 => Some(false), _ => Some(true) })
+    h1::n2c::VersionData::new(magic(m), match x % 3 { 0 => None, 1 => Some(false), _ => Some(true) })
 }
 fn n2n_2(m: i64, x: i64) -> h2::n2n::VersionData {
-    h2::n2n::VersionData::new(m as u64, x & 1 == 1, Some((x >> 1) as u8), Some(false))
+    h2::n2n::VersionData::new(magic(m), x & 1 == 1, Some((x >> 1) as u8), Some(false))
 }
 
 /// abstract (magic, x) of version data the responder sent: looked up among the data of both tables
@@ -177,7 +187,7 @@ pub fn replay(args: &Args) {
 /// M3: seeded tables of 0..16 versions, overlapping and disjoint, equal and different data / magics
 pub fn trace(args: &Args) {
     let mut g = Rng::new(args.seed());
-    let magics = [764824073i64, 1097911063, 1, 2, 4];
+    let magics: Vec<i64> = (1..=MAGICS.len() as i64).collect();
     let mut pairs = Vec::new();
     for _ in 0..args.num("n", 300) {
         let pool: Vec<i64> = match g.below(3) {
@@ -185,7 +195,8 @@ pub fn trace(args: &Args) {
             1 => (32770..=32791).chain([1, 4097]).collect(),
             _ => (0..40).map(|_| g.below(2_000_000_000) as i64).collect(),
         };
-        let home = *g.pick(&magics);
+        // the "home" network and its wide twin (same low 32 bits) are the usual choices
+        let home = *g.pick(&[1i64, 2, 3, 5]);
         let table = |g: &mut Rng, from: &[i64], base: &[Row]| -> Vec<Row> {
             let n = g.below(17) as usize;
             let mut vs: Vec<i64> = from.to_vec();
@@ -195,7 +206,7 @@ pub fn trace(args: &Args) {
                 .map(|v| match base.iter().find(|r| r[0] == *v) {
                     Some(r) if g.chance(2, 3) => *r,                                  // same data as the other side
                     Some(r) if g.bool() => [*v, r[1], g.below(4) as i64],             // same magic, other data
-                    _ => [*v, if g.chance(3, 4) { home } else { *g.pick(&magics) }, g.below(4) as i64],
+                    _ => [*v, if g.chance(2, 4) { home } else if g.bool() { home + 1 } else { *g.pick(&magics) }, g.below(4) as i64],
                 })
                 .collect()
         };
